@@ -743,7 +743,29 @@ func run(r *hk.Run) {
 			}
 		}(w)
 	}
+	// one directed interleaving scenario beside the cells (oracle only), unless a replay is running
+	var scenFail *violation
+	var scenNote string
+	if r.Replay == "" {
+		wg.Add(1)
+		go func() {
+			defer wg.Done()
+			defer func() {
+				if e := recover(); e != nil {
+					scenNote = fmt.Sprintf("scenario inflight-h3-dial: panic: %v", e)
+				}
+			}()
+			scenFail, scenNote = scenarioInflightDial(p)
+		}()
+	}
 	wg.Wait()
+	if scenNote != "" {
+		r.Notes = append(r.Notes, scenNote)
+	}
+	if scenFail != nil {
+		r.Fail(hk.Failure{Sig: scenFail.Sig, What: scenFail.What, Input: map[string]string{"scenario": "origin A advertises h3 on origin B's port (same host); GET A; as soon as the Alt-Svc dial to B's UDP port is in flight: GET B, nothing forced, HTTP/3 enabled, root CA set"}})
+	}
+	r.Count("scenario:inflight-h3-dial")
 	if startErr != nil {
 		r.Fail(hk.Failure{Sig: "harness-origin", What: startErr.Error()})
 		return
